@@ -56,6 +56,25 @@ type srvConn struct {
 	gaugeMaxS int64
 	gaugeMaxR int64
 	gaugeMaxH int64
+	holding   map[uint32]bool // handlers that have built part of their response and are still running
+	ownerViol []string        // something reached into a response its handler still owns
+}
+
+// earlyStream is a response body a handler installs before it has finished. Until the handler returns the response is
+// the handler's: anything else closing this reader is an ownership violation (C17, C19).
+type earlyStream struct {
+	s   *srvConn
+	sid uint32
+}
+
+func (e *earlyStream) Read(p []byte) (int, error) { return 0, io.EOF }
+func (e *earlyStream) Close() error {
+	e.s.mu.Lock()
+	if e.s.holding[e.sid] {
+		e.s.ownerViol = append(e.s.ownerViol, fmt.Sprintf("response-closed-under-handler(%d)", e.sid))
+	}
+	e.s.mu.Unlock()
+	return nil
 }
 
 type capLogger struct{ s *srvConn }
@@ -252,20 +271,32 @@ func (s *srvConn) handler(ctx *fasthttp.RequestCtx) {
 	if s.inflight > s.maxInfl {
 		s.maxInfl = s.inflight
 	}
+	early := len(ctx.Request.Header.Peek("x-early")) > 0
+	if early {
+		s.holding[sid] = true
+	}
 	s.mu.Unlock()
+	if early {
+		// a handler that starts on its response and then takes its time
+		ctx.Response.SetBodyStream(&earlyStream{s: s, sid: sid}, -1)
+	}
 	sp := <-ch
 	s.mu.Lock()
 	s.inflight--
+	delete(s.holding, sid)
 	s.mu.Unlock()
 	if sp.kind == "panic" {
 		panic("scripted handler panic")
+	}
+	if early {
+		ctx.Response.Reset()
 	}
 	applyResp(&ctx.Response, sp)
 }
 
 func newSrvConn(mcs, mhl, mrb int) *srvConn {
 	http2.VerifResetCounters()
-	s := &srvConn{mc: newMemConn(), served: make(chan struct{}), parked: map[uint32]chan respSpec{}}
+	s := &srvConn{mc: newMemConn(), served: make(chan struct{}), parked: map[uint32]chan respSpec{}, holding: map[uint32]bool{}}
 	s.dec = hpack.NewDecoder(4096, nil)
 	fs := &fasthttp.Server{Handler: s.handler, Logger: capLogger{s}}
 	if mrb > 0 {
@@ -462,6 +493,10 @@ func (s *srvConn) quiesce() string {
 			}
 			s.logLines = nil
 			s.logMu.Unlock()
+			s.mu.Lock()
+			out = append(out, s.ownerViol...)
+			s.ownerViol = nil
+			s.mu.Unlock()
 			if len(rest) != 0 && (served || stuck) {
 				out = append(out, fmt.Sprintf("partial(%d)", len(rest)))
 			}
